@@ -22,4 +22,23 @@ PROPS = {
         "trusted_base": ["i128/u128 ranges are not modelled: callers keep |value| < 2^100 (generator respects this)"],
         "assumptions": ["the exhaustive part covers x in [-300,300] x inc in [1,30] x 9 modes through the verif_hooks rounder"],
     },
+    "C10": {
+        "lean_modules": ["TemporalModel.Props.C10"],
+        "suites": ["c10"],
+        "level_text": "Proof: C10_diff_settings / C10_duration_round / C10_datetime_round / C10_instant_round / C10_to_string show, for "
+                      "every unit group, every largest/smallest unit or absence, every mode or absence and a symbolic increment (any "
+                      "integer >= 1), that the coded resolvers accept exactly the combinations the table oracle allows, resolve to the "
+                      "specified defaults, and reject with RangeError only (C10_never_panics). The tie runs the full option matrix through "
+                      "the crate's own resolvers (hook) and the accept/reject matrix through every public operation.",
+        "level_note": "Trusted: Lean kernel (+propext, Classical.choice, Quot.sound); the hand model of options.rs/increment.rs; the table "
+                      "oracle Spec/Options.lean as the reading of 'what Temporal allows'; harness and diff. Public operations are compared "
+                      "on accept/reject only (fixed operands).",
+        "why_difference_is_violation":
+            "C10_* theorems prove the model resolver equals the allowed-combination table for all inputs; the implementation "
+            "accepted/rejected (or resolved) this option cell differently from the table.",
+        "exhaustive_quick": True,
+        "rule": "full matrix {6 caller parameter sets} x {since,until} x 12 largest x 12 smallest x 30 increments x modes through the hook "
+                "resolvers, plus duration/datetime/instant/toString resolvers, plus 16 public operations x 12 x 12 x 13 increments; "
+                "distinct = distinct op line, non-trivial = accepted cell (outcome ok)",
+    },
 }
